@@ -11,6 +11,10 @@ pub static TRACKED: AtomicU64 = AtomicU64::new(0);
 pub static LIVE: AtomicU64 = AtomicU64::new(0);
 /// allocations of size 0 requested while enabled (undefined behaviour for GlobalAlloc::alloc)
 pub static ZERO_SIZED: AtomicU64 = AtomicU64::new(0);
+/// while set, a request with alignment 1 (and at least 16 bytes) is served at an address that is ODD: an
+/// allocator owes a request nothing beyond the alignment it asked for, so a buffer that is later viewed as
+/// 16-byte records must have been requested with that alignment (C17: "uses misaligned memory")
+pub static MISALIGN: AtomicBool = AtomicBool::new(false);
 const CAP: usize = 1 << 16;
 static PTRS: [AtomicUsize; CAP] = [const { AtomicUsize::new(0) }; CAP];
 static SIZES: [AtomicUsize; CAP] = [const { AtomicUsize::new(0) }; CAP];
@@ -26,6 +30,10 @@ unsafe impl GlobalAlloc for Tracking {
             ZERO_SIZED.fetch_add(1, Relaxed);
             // never hand a zero-sized request to the system allocator
             return System.alloc(Layout::from_size_align_unchecked(layout.align().max(1), layout.align().max(1)));
+        }
+        if layout.align() == 1 && layout.size() >= 16 && MISALIGN.load(Relaxed) {
+            let q = System.alloc(Layout::from_size_align_unchecked(layout.size() + 16, 16));
+            return if q.is_null() { q } else { q.add(1) };
         }
         let p = System.alloc(layout);
         if !p.is_null() && ENABLED.load(Relaxed) && layout.align() == 8 && layout.size() % 16 == 0 && layout.size() >= 16 {
@@ -66,6 +74,10 @@ unsafe impl GlobalAlloc for Tracking {
         if ENABLED.load(Relaxed) && layout.size() > 0 {
             // poison: a read through a dangling borrow returns 0xDD bytes, not the old contents
             std::ptr::write_bytes(p, 0xDD, layout.size());
+        }
+        if layout.align() == 1 && (p as usize) & 15 == 1 {
+            // one of the deliberately odd addresses (the system allocator never returns one)
+            return System.dealloc(p.sub(1), Layout::from_size_align_unchecked(layout.size() + 16, 16));
         }
         System.dealloc(p, layout)
     }
